@@ -8,7 +8,7 @@ A3 == {TAB, CR, LF, Ord["t"], Ord["r"], Ord["u"], Ord["e"], Ord["T"], Ord["_"], 
 A4 == {32, Ord["h"], Ord["i"], Ord["+"], Ord["-"], Ord["1"], Ord["("], Ord["x"], Ord["="], LF, Ord["'"], 233, Ord["?"], Ord[":"]}
 \* characters Unicode calls white space but the engine does not (NBSP, VT, FF, NEL, ideographic space): ordinary name characters here
 A5 == {32, Ord["\""], 160, 11, 12, 133, 12288, Ord["f"], Ord["("], Ord[")"], Ord["1"], Ord["+"], Ord["'"], Ord["."]}
-A6 == {32, 126, 64, 8800, Ord["a"], Ord["1"], Ord["("], Ord["+"], Ord["="], Ord["."], LF, Ord[";"], 127, Ord["'"]}
+A6 == {32, 126, 64, 8800, Ord["a"], Ord["1"], Ord["("], Ord["+"], Ord["="], 92, LF, Ord[";"], 127, Ord["'"]}
 AllAlpha == A1 \cup A2 \cup A3 \cup A4 \cup A5 \cup A6
 \* operator sets
 OpsBuiltin == BuiltinOps
